@@ -26,7 +26,7 @@ NOT_DECIDED = ['numeric equality of the round trip']
 ESI_FLOOR = 6   # counted by hand: compact::IntoIter, compact::OptIntoIter, data::AtomicIter, json::OutcomeIter, NamedStrategyIter, NamedStrategyActionIter
 
 
-def tags(e):
+def _tags_unused(e):
     """per-player array positions an expression is read from"""
     out = set()
     for s in facts.walk(e):
@@ -166,7 +166,7 @@ def run(ctx):
             ctx.anchor_lost(rule, 'as_named: two NamedStrategyIter::new calls', 'found %d' % len(news))
         r0 = strip_refs(q.ret_expr(f))
         for bi, t, e in news:
-            ts = [tags(a) for a in e[2]]
+            ts = [q.tags(a) for a in e[2]]
             fields = ['player_infosets' in facts.show(e[2][0]), 'probs' in facts.show(e[2][1]), 'single_infosets' in facts.show(e[2][2])] if len(e[2]) == 3 else [False]
             one = len(ts) == 3 and all(len(x) == 1 for x in ts) and ts[0] == ts[1] == ts[2]
             k = next(iter(ts[0])) if one else None
